@@ -17,6 +17,10 @@ Property oracle (model independent, evaluated on the real code):
   reject     unknown keys, "" and None: a warning, nothing stored, no error
   saveload   Configuration.save + load returns the stored value for text
              the .cfg syntax can carry (incl. "=", ":", "[", "]", commas)
+  json/copy/order  as_dict/tojson keep the value, copy()/update(cfg) keep
+             type and value, items()/tostring() are sorted by key
+  carry      metadata pushed through writer, export, compress, repack, join,
+             split and a hierarchy child equals the normalised original
   roundtrip  what RTDCWriter.store_metadata wrote is read back (parse_config,
              new_dataset, export.hdf5, dclab-compress) equal to the value
              normalised by Configuration, with a documented type
@@ -38,6 +42,13 @@ RULE = ("keys: every (section, key) of the generated table, online_filter / "
         "of ndim 0-2) plus random ones; routes: assignment/update/constructor,"
         " configuration file line (values with = : [ ] # quotes blanks), "
         "save+load, store_metadata+parse_config, re-assignment. "
+        "Further routes: as_dict/tojson (normal form), copy and "
+        "update(Configuration), several assignments to one section observed "
+        "through items()/tostring() (ordering), and 12 (thorough 40) random "
+        "metadata sets (all file sections, pattern keys, user entries, numpy "
+        "typed values) carried through RTDCWriter -> parse_config -> "
+        "new_dataset -> hierarchy child -> export.hdf5 -> compress -> repack "
+        "-> join(2) -> split, every entry compared after every hop. "
         "Quick tier: for the assignment route the full list of values for "
         "one key of every (section, converter) class and 30+6 sampled values "
         "for every other key, random samples of the product for the other "
@@ -69,6 +80,11 @@ ASSUMPTIONS = [
     "(rectified by the writer from the data) and section fmt_tdms (dropped "
     "by the writer) are excluded from the file round trip",
     "upper-case non-ASCII letters do not occur in keys or lcstr values",
+    "documented overrides of the tools are excluded from the carry-over "
+    "comparison: join sets experiment:run index, split rewrites "
+    "experiment:sample and run identifier, a hierarchy child replaces "
+    "filtering ranges/polygon filters/hierarchy parent and event count; "
+    "inputs of join/split carry experiment date, time, run index, sample",
 ]
 
 HEADER = ("From Coq Require Import ZArith List Bool.\nImport ListNotations.\n"
@@ -598,6 +614,189 @@ def impl_route4(case, val, scratch, idx):
     return enc_obs(obs), fails
 
 
+def e_nf(x):
+    """encoding of the normal form of a JSON value (mirrors enc_nf)"""
+    def num(y):
+        return isinstance(y, (bool, int, float))
+    if x is None:
+        return [0]
+    if isinstance(x, str):
+        return [1, len(x)] + [ord(c) for c in x]
+    if num(x):
+        return [3] + e_fl(x)
+    if isinstance(x, list):
+        if all(num(y) for y in x):
+            out = [4, len(x)]
+            for y in x:
+                out += e_fl(y)
+            return out
+        if all(isinstance(y, list) and all(num(z) for z in y) for y in x):
+            out = [5, len(x)]
+            for y in x:
+                out.append(len(y))
+                for z in y:
+                    out += e_fl(z)
+            return out
+    return [99]
+
+
+def _assign_cfg(sec, key, val):
+    """(Configuration, stored) after one assignment; raises what it raises;
+    stored is None when the entry was rejected"""
+    from dclab.rtdc_dataset.config import Configuration
+    lk = key.lower()
+    with warnings.catch_warnings(record=True) as wl:
+        warnings.simplefilter("always")
+        c = Configuration()
+        if sec in c:
+            c[sec].pop(lk, None)
+        if section_known(sec):
+            c[sec][key] = val
+        else:
+            c.update({sec: {key: val}})
+        stored = c[sec].get(lk, ABSENT) if sec in c else ABSENT
+        if warn_codes(wl):
+            stored = ABSENT
+    return c, stored
+
+
+def impl_route5(case, val):
+    """Configuration.as_dict / tojson"""
+    sec, key = case["sec"], case["key"]
+    lk = key.lower()
+    fails = []
+    try:
+        c, stored = _assign_cfg(sec, key, val)
+    except Exception as e:
+        return e_exc(e), fails
+    if stored is ABSENT:
+        return [97], fails
+    try:
+        with warnings.catch_warnings():
+            warnings.simplefilter("ignore")
+            j1 = c.as_dict()[sec][lk]
+            j2 = json.loads(c.tojson())[sec][lk]
+            j3 = c.as_dict(pop_filtering=True)
+    except Exception as e:
+        def has_bytes(x):
+            return isinstance(x, bytes) or (
+                isinstance(x, (list, tuple)) and any(has_bytes(y) for y in x))
+        if has_converter(sec, lk) or not has_bytes(stored):
+            # (a sequence with byte strings under a key without converter is
+            # kept as it is; JSON cannot carry it)
+            fails.append(("json", "stored %s; as_dict/tojson raises %r" % (
+                short(stored), e)))
+        return [99], fails
+    if "filtering" in j3:
+        fails.append(("json", "as_dict(pop_filtering=True) keeps filtering"))
+    if e_nf(j1) != e_nf(j2):
+        fails.append(("json", "as_dict %s, tojson %s" % (short(j1),
+                                                         short(j2))))
+    def to_lists(x):
+        if isinstance(x, (list, tuple)):
+            return [to_lists(y) for y in x]
+        return x
+    if not py_equal(j1, to_lists(stored)):
+        fails.append(("json", "stored %s; as_dict gives %s" % (
+            short(stored), short(j1))))
+    return e_nf(j1), fails
+
+
+def impl_route6(case, val):
+    """Configuration.copy and Configuration.update(Configuration)"""
+    from dclab.rtdc_dataset.config import Configuration
+    sec, key = case["sec"], case["key"]
+    lk = key.lower()
+    fails = []
+    o = _assign(sec, key, val, "item" if section_known(sec) else "update")
+    if not (o[0] == "ok" and not o[2] and o[1] is not ABSENT):
+        flat = [97] if (o[0] == "ok" and not o[2]) else enc_obs(o)
+        return ("multi", [flat, flat]), fails
+    c, stored = _assign_cfg(sec, key, val)
+    flats = []
+    for how in ("copy", "update"):
+        with warnings.catch_warnings(record=True) as wl:
+            warnings.simplefilter("always")
+            try:
+                if how == "copy":
+                    c2 = c.copy()
+                else:
+                    c2 = Configuration()
+                    if sec in c2:
+                        c2[sec].pop(lk, None)
+                    c2.update(c)
+                got = c2[sec].get(lk, ABSENT) if sec in c2 else ABSENT
+                obs = ("ok", got, warn_codes(wl))
+            except Exception as e:
+                obs = ("exc", e, warn_codes(wl))
+        flats.append(enc_obs(obs))
+        if obs[0] == "exc" or obs[1] is ABSENT or \
+                not same_type_equal(obs[1], stored):
+            fails.append(("copy", "stored %s; after %s %s" % (
+                short(stored), how, short(obs[1]))))
+        elif how == "copy" and sorted(c2.keys()) != sorted(c.keys()):
+            fails.append(("copy", "sections %s -> %s" % (
+                sorted(c.keys()), sorted(c2.keys()))))
+    return ("multi", flats), fails
+
+
+def impl_multi(case):
+    """several assignments to one section with update / the constructor,
+    observed through items() and tostring()"""
+    from dclab.rtdc_dataset.config import Configuration
+    sec = case["sec"]
+    items = [(k, build(v)) for k, v in case["items"]]
+    fails = []
+    with warnings.catch_warnings(record=True) as wl:
+        warnings.simplefilter("always")
+        try:
+            c = Configuration()
+            if sec in c:
+                c[sec].clear()
+            c.update({sec: dict(items)})
+            its = c[sec].items() if sec in c else []
+            wc = warn_codes(wl)
+        except Exception as e:
+            return e_exc(e), fails
+    flat = [1, len(wc)] + wc + [len(its)]
+    for k, v in its:
+        flat += [len(k)] + [ord(ch) for ch in k] + e_value(v)
+    keys = [k for k, _ in its]
+    if keys != sorted(keys) or any(k != k.lower() for k in keys):
+        fails.append(("order", "items() keys %s" % keys))
+    if sorted(keys) != sorted(c[sec].keys()) or any(
+            not same_type_equal(v, c[sec][k]) for k, v in its):
+        fails.append(("order", "items() differs from keys()/getitem"))
+    # tostring: sections and keys sorted, every key once
+    with warnings.catch_warnings():
+        warnings.simplefilter("ignore")
+        try:
+            lines = c.tostring().split("\n")
+        except Exception as e:
+            lines = None
+            fails.append(("order", "tostring raises %r" % (e,)))
+    if lines is not None:
+        secs = [ln[1:-1] for ln in lines if ln.startswith("[")
+                and ln.endswith("]") and "=" not in ln]
+        if secs != sorted(c.keys()):
+            fails.append(("order", "tostring sections %s" % secs))
+    if sec != "filtering":
+        with warnings.catch_warnings():
+            warnings.simplefilter("ignore")
+            try:
+                c2 = Configuration(cfg={sec: dict(items)})
+                its2 = c2[sec].items() if sec in c2 else []
+                if [k for k, _ in its2] != keys or any(
+                        not same_type_equal(a[1], b[1])
+                        for a, b in zip(its, its2)):
+                    fails.append(("routes", "constructor gives %s, update "
+                                  "%s" % (short(its2), short(its))))
+            except Exception as e:
+                fails.append(("routes", "constructor raises %r, update does "
+                              "not" % (e,)))
+    return flat, fails
+
+
 def impl_route1(case, scratch, idx):
     """configuration file with the single entry `key = text`"""
     from dclab.rtdc_dataset.config import Configuration
@@ -989,6 +1188,10 @@ def run_one(case, scratch, idx):
         val = build(case["val"])
         once, twice, fails = impl_conv(case["conv"], val)
         return [once, twice], fails
+    if route == "multi":
+        return impl_multi(case)
+    if route == "carry":      # replay of one entry: a single write/read hop
+        return impl_route2(case, build(case["val"]), scratch, idx)
     val = build(case["val"])
     if route == 0:
         flat, fails, _ = impl_route0(case, val)
@@ -1001,6 +1204,10 @@ def run_one(case, scratch, idx):
         return impl_route3(case, val), []
     if route == 4:
         return impl_route4(case, val, scratch, idx)
+    if route == 5:
+        return impl_route5(case, val)
+    if route == 6:
+        return impl_route6(case, val)
     raise ValueError(route)
 
 
@@ -1058,7 +1265,26 @@ def make_cases(run):
         r2 = rng.sample(r2, min(len(r2), 12000))
         r3 = rng.sample(r3, min(len(r3), 12000))
         r4 = rng.sample(r4, min(len(r4), 15000))
-    for route, lst in ((1, r1), (2, r2), (3, r3), (4, r4)):
+    r5 = rng.sample(r3, min(len(r3), 6000 if run.thorough else 500))
+    r6 = rng.sample(r3, min(len(r3), 6000 if run.thorough else 500))
+    good = [(s, k, c) for (s, k, c) in keys if key_ok_for_model(s, k)]
+    by_sec = {}
+    for s, k, c in good:
+        by_sec.setdefault(s, []).append(k)
+    for _ in range(3000 if run.thorough else 300):
+        sec = rng.choice(sorted(by_sec))
+        ks = rng.sample(by_sec[sec], min(len(by_sec[sec]),
+                                         rng.randint(2, 7)))
+        ks = [rng.choice([k, k, k.upper(), k.title()]) for k in ks]
+        if rng.random() < 0.2:
+            ks.append(rng.choice(ks).swapcase())
+        its, seen = [], set()
+        for k in ks:
+            if k not in seen:
+                seen.add(k)
+                its.append([k, rng.choice(fixed + rand_vals)])
+        cases.append(dict(route="multi", sec=sec, items=its))
+    for route, lst in ((1, r1), (2, r2), (3, r3), (4, r4), (5, r5), (6, r6)):
         for s, k, c, v in lst:
             cases.append(dict(route=route, sec=s, key=k, val=v, cls=c))
     return cases
@@ -1077,13 +1303,14 @@ def run(run):
             except Exception as e:   # harness problem, not a verdict
                 flat, fails = [-2], [("harness", "crashed: %r" % (e,))]
             impl[idx] = flat
-            nontrivial = c["route"] == "conv" or (
+            nontrivial = c["route"] in ("conv", "multi") or (
                 c.get("cls") != "bad" and c["val"] not in (["str", ""],
                                                            ["none"],
                                                            ["bytes", ""]))
             run.record_case(c, nontrivial)
             run.count("route:%s" % c["route"])
-            run.count("value:%s" % c["val"][0])
+            if "val" in c:
+                run.count("value:%s" % c["val"][0])
             if "cls" in c:
                 run.count("key:%s" % c["cls"])
             seen = set()
@@ -1097,12 +1324,16 @@ def run(run):
     # HDF5 files are written and re-opened before any coqc subprocess is
     # spawned (a forked child briefly shares the file locks)
     run_impl([(i, c) for i, c in enumerate(cases) if c["route"] == 2])
-    dataset_roundtrip(run)
+    carry_chains(run, cases, impl)
     # the model: keys and values are shared definitions, a case is a triple
     # of indices (keeps the generated Coq files small)
     conv_cases = [(i, c) for i, c in enumerate(cases) if c["route"] == "conv"]
-    cfg_cases = [(i, c) for i, c in enumerate(cases) if c["route"] != "conv"
+    cfg_cases = [(i, c) for i, c in enumerate(cases)
+                 if c["route"] not in ("conv", "multi")
                  and key_ok_for_model(c["sec"], c["key"])]
+    multi_cases = [(i, c) for i, c in enumerate(cases)
+                   if c["route"] == "multi"]
+    model_route = {"carry": 2, 6: 3}
     vidx, vlist, kidx, klist = {}, [], {}, []
 
     def vi(v):
@@ -1119,8 +1350,12 @@ def run(run):
             klist.append("(%s, %s)" % (r_str(sec), r_str(key)))
         return kidx[k]
     r1 = ["(%d, %d%%nat)" % (c["conv"], vi(c["val"])) for _, c in conv_cases]
-    r2 = ["(%d, %d%%nat, %d%%nat)" % (c["route"], ki(c["sec"], c["key"]),
-                                     vi(c["val"])) for _, c in cfg_cases]
+    r2 = ["(%d, %d%%nat, %d%%nat)" % (
+        model_route.get(c["route"], c["route"]), ki(c["sec"], c["key"]),
+        vi(c["val"])) for _, c in cfg_cases]
+    r3 = ["(%s, %s)" % (r_str(c["sec"]), common.clist(
+        ["(%s, %s)" % (r_str(k), r_value(v)) for k, v in c["items"]]))
+        for _, c in multi_cases]
     header = (HEADER + "Open Scope Z_scope.\n"
               "Definition K_ : list (list Z * list Z) := [\n%s].\n"
               "Definition V_ : list value := [\n%s].\n"
@@ -1134,22 +1369,29 @@ def run(run):
               % (";\n".join(klist), ";\n".join(vlist)))
     # the model is evaluated in the background while the implementation runs
     import concurrent.futures
-    pool = concurrent.futures.ThreadPoolExecutor(max_workers=2)
+    pool = concurrent.futures.ThreadPoolExecutor(max_workers=3)
     f1 = pool.submit(common.coq_map, run.scratch, "c11conv", header, "conv_",
                      r1, 600)
     f2 = pool.submit(common.coq_map, run.scratch, "c11cfg", header, "cfg_",
                      r2, 1200)
-    run_impl([(i, c) for i, c in enumerate(cases) if c["route"] != 2])
+    f3 = pool.submit(common.coq_map, run.scratch, "c11multi", HEADER,
+                     "multi_case table feats", r3, 150)
+    run_impl([(i, c) for i, c in enumerate(cases)
+              if c["route"] not in (2, "carry")])
     try:
         m1 = f1.result()
         m2 = f2.result()
+        m3 = f3.result()
     finally:
         pool.shutdown(wait=True)
     unmod = 0
-    for (i, c), m in list(zip(conv_cases, m1)) + list(zip(cfg_cases, m2)):
+    for (i, c), m in list(zip(conv_cases, m1)) + list(zip(cfg_cases, m2)) \
+            + list(zip(multi_cases, m3)):
         got = impl[i]
         if c["route"] == "conv":
             pairs = list(zip(m, got))
+        elif isinstance(got, tuple) and got[0] == "multi":
+            pairs = [(m, g) for g in got[1]]
         else:
             pairs = [(m, got)]
         for mm, gg in pairs:
@@ -1165,128 +1407,303 @@ def run(run):
 # --------------------------------------------------------------------------
 # whole-file round trips: new_dataset, export.hdf5, dclab-compress
 # --------------------------------------------------------------------------
-def random_meta(rng):
-    """A metadata dict with one representation per key (valid values)."""
+def random_meta_spec(rng):
+    """{section: {key: value spec}}: one valid representation per key, for
+    all sections that are written to .rtdc files, pattern keys and the user
+    section"""
     from dclab import definitions as dfn
+    S = lambda x: ["str", x]           # noqa: E731
+    I = lambda x: ["int", x]           # noqa: E731
+    F = lambda x: ["float", x]         # noqa: E731
     meta = {}
     for sec in sorted(dfn.CFG_METADATA):
         if sec == "fmt_tdms":
             continue
         for key in sorted(dfn.config_funcs[sec]):
-            if (sec, key) in RECTIFIED or rng.random() < 0.35:
+            if (sec, key) in RECTIFIED or rng.random() < 0.3:
                 continue
             f = dfn.config_funcs[sec][key].__name__
-            m = rng.choice([0, 8, 12, -20, 8 * rng.randint(1, 500)])
-            if f in ("str", "lcstr"):
-                v = rng.choice(["Abc", "x y", "1", "True", "µm", "a:b",
-                                b"Bytes", "0.5"])
+            n = rng.choice([0, 1, 3, rng.randint(-40, 4000)])
+            m = rng.choice([0, 8, 12, -20, rng.randint(-4000, 4000)])
+            if f == "str":
+                v = rng.choice([S("Abc"), S("x y"), S("1"), S("True"),
+                                S("µm"), S("a:b"), ["bytes", "Bytes"],
+                                S("0.5"), S("k=v, [x]"), I(n), F(m)])
+            elif f == "lcstr":
+                v = rng.choice([S("Channel"), S("ABC-1"), ["bytes", "Res"],
+                                S("x=Y")])
             elif f == "float":
-                v = rng.choice([m / 8, str(m / 8), m // 8, True,
-                                __import__("numpy").float32(m / 8)])
+                v = rng.choice([F(m), S(repr(m / 8)), I(n), ["bool", True],
+                                ["npf32", m], ["npf64", m], ["npint", n],
+                                ["arr0", "f", m], F("nan")])
             elif f == "fint":
-                v = rng.choice([m // 8, m / 8, str(m // 8), "true", False])
+                v = rng.choice([I(n), F(m), S(str(n)), S("true"),
+                                ["bool", False], ["npint", n], ["npf64", m],
+                                ["arr0", "i", 8 * n]])
             elif f == "fbool":
-                v = rng.choice([True, False, "true", "False", 0, 1, "0", 0.0])
+                v = rng.choice([["bool", True], ["bool", False], S("true"),
+                                S("False"), I(0), I(1), S("0"), F(0),
+                                ["npbool", True], ["npbool", False]])
             elif f == "fboolorfloat":
-                v = rng.choice([True, False, "true", m / 8, m // 8, 0])
+                v = rng.choice([["bool", True], ["bool", False], S("true"),
+                                F(m), I(n), I(0), ["npbool", True],
+                                ["npf64", m], ["npint", n], ["npf32", m]])
             elif f == "f1dfloatduple":
-                v = rng.choice([(m / 8, 1.5), [1, m // 8], ["1", "2.5"]])
+                v = rng.choice([["tuple", [F(m), F(12)]],
+                                ["list", [I(1), I(n)]],
+                                ["list", [S("1"), S("2.5")]],
+                                ["arr1", "f", [m, 20]],
+                                ["arr1", "i", [8, 8 * n]]])
             else:
                 continue
             meta.setdefault(sec, {})[key] = v
+    ex = meta.setdefault("experiment", {})
+    # (dclab-join sorts its inputs by date, time and run index, dclab-split
+    # reads the sample name: these four are always present)
+    ex.setdefault("run index", rng.choice([I(1), S("2"), F(24)]))
+    ex["date"] = S("2024-03-05")
+    ex["time"] = S("12:10:11")
+    ex["sample"] = rng.choice([S("verif sample"), S("c=0.5 mg/mL")])
+    feats = ["deform", "area_um"] + rng.sample(
+        sorted(dfn.scalar_feature_names), 2)
     of = meta.setdefault("online_filter", {})
-    of["deform min"] = rng.choice([0, 0.125, 1])
-    of["deform max"] = rng.choice([1, 0.5, "0.5"])
-    of["area_um soft limit"] = rng.choice([True, "False", 0])
-    of["area_um,deform soft limit"] = rng.choice([False, "true", 1])
+    for ft in feats:
+        if rng.random() < 0.7:
+            of[ft + " min"] = rng.choice([I(0), F(1), I(1), ["npf64", 4],
+                                          ["npint", 2]])
+            of[ft + " max"] = rng.choice([I(1), F(4), F(800), ["npf32", 12]])
+        if rng.random() < 0.6:
+            of[ft + " soft limit"] = rng.choice(
+                [["bool", True], S("False"), I(0), ["npbool", True]])
+    of["area_um,deform soft limit"] = rng.choice(
+        [["bool", False], S("true"), I(1)])
     of["area_um,deform polygon points"] = rng.choice(
-        [[[1, 2], [3, 4.5], [5, 6]], ((0, 0), (1, 0), (1, 1))])
-    meta["user"] = {"My Key": rng.choice([1, 2.5, "text", True]),
-                    "a:b": rng.choice([[1, 2, 3], (1.5, 2.5), 7]),
-                    "flag": rng.choice([True, False]),
-                    "arr": [[1, 2], [3, 4]], "s p a c e": "x",
-                    "zero": 0, "f32": __import__("numpy").float32(1.5)}
+        [["list2", [[I(1), I(2)], [I(3), F(36)], [I(5), I(6)]]],
+         ["tuple2", [[I(0), I(0)], [I(1), I(0)], [I(1), I(1)]]],
+         ["arr2", "f", [[8, 16], [24, 36], [40, 48]]],
+         ["arr2", "i", [[8, 16], [24, 32]]]])
+    meta["user"] = {
+        "My Key": rng.choice([I(1), F(20), S("text"), ["bool", True]]),
+        "a:b": rng.choice([["list", [I(1), I(2), I(3)]],
+                           ["tuple", [F(12), F(20)]], I(7)]),
+        "flag": ["bool", rng.random() < 0.5],
+        "arr": rng.choice([["list2", [[I(1), I(2)], [I(3), I(4)]]],
+                           ["arr2", "f", [[8, 12], [0, "nan"]]]]),
+        "s p a c e": S("x = y # z"), "zero": I(0),
+        "f32": ["npf32", 12], "np": rng.choice([["npint", 5], ["npf64", 4],
+                                                 ["npbool", False]]),
+        "vec": rng.choice([["arr1", "i", [0, 8, 16]],
+                           ["arr1", "b", [8, 0]],
+                           ["list", [["bool", True], ["bool", False]]]])}
     return meta
 
 
-def config_diff(ref, cfg, sections):
-    """ref: Configuration built from the metadata; cfg: read back"""
-    from dclab import definitions as dfn
-    out = []
-    for sec in sections:
-        a = dict(ref[sec]) if sec in ref else {}
-        b = dict(cfg[sec]) if sec in cfg else {}
-        for k in sorted(set(a) | set(b)):
-            if (sec, k) in RECTIFIED:
-                continue
-            if k not in a or k not in b:
-                out.append("%s:%s %s" % (sec, k, "missing after round trip"
-                                         if k in a else "appeared"))
-                continue
-            if not py_equal(a[k], b[k]):
-                out.append("%s:%s %s -> %s" % (sec, k, short(a[k]),
-                                               short(b[k])))
-            typ = dfn.get_config_value_type(sec, k)
-            if typ is not None and has_converter(sec, k) and \
-                    not isinstance(b[k], typ):
-                out.append("%s:%s read back type %s" % (
-                    sec, k, type(b[k]).__name__))
-    return out
+HOP_EXCLUDED = {
+    "join": {("experiment", "run index")},
+    "split": {("experiment", "sample"), ("experiment", "run identifier")},
+}
 
 
-def dataset_roundtrip(run):
+def carry_chains(run, cases, impl):
+    """Random metadata sets pushed through RTDCWriter -> parse_config ->
+    new_dataset -> hierarchy child -> export.hdf5 -> compress -> repack ->
+    join (2 inputs) -> split.  After every hop every entry is compared with
+    the value normalised by Configuration (oracle) and, through the cases
+    appended here, with the model's write/read result (correspondence)."""
+    import contextlib
+    import io
     import numpy as np
     import dclab
-    from dclab import RTDCWriter
+    from dclab import RTDCWriter, definitions as dfn
+    from dclab.cli import compress, repack, join, split
     from dclab.rtdc_dataset.config import Configuration
-    n = 12 if run.thorough else 4
-    for i in range(n):
-        meta = random_meta(run.rng)
-        case = dict(route="dataset", meta=json.loads(json.dumps(
-            meta, default=lambda o: repr(o))))
-        d = os.path.join(run.scratch, "ds%d" % i)
-        os.makedirs(d, exist_ok=True)
-        p0 = os.path.join(d, "orig.rtdc")
+    from dclab.rtdc_dataset.fmt_hdf5 import RTDC_HDF5
+    n = 40 if run.thorough else 12
+    if globals().get("_REPLAY_ONE"):
+        n = 1
+    for ci in range(n):
+        spec = random_meta_spec(run.rng)
+        meta = {s: {k: build(v) for k, v in spec[s].items()} for s in spec}
+        entries = [(s, k) for s in sorted(spec) for k in sorted(spec[s])]
+        flats = {e: [] for e in entries}
+        hops_done = []
         fails = []
+        d = os.path.join(run.scratch, "carry%d" % ci)
+        os.makedirs(d, exist_ok=True)
+
+        def observe(hop, cfg):
+            hops_done.append(hop)
+            excl = RECTIFIED | HOP_EXCLUDED.get(hop, set())
+            for (s, k) in entries:
+                lk = k.lower()
+                if (s, lk) in excl:
+                    continue
+                got = cfg[s].get(lk, ABSENT) if s in cfg else ABSENT
+                flats[(s, k)].append(enc_obs(("ok", got, [])))
+                want = ref[s].get(lk, ABSENT) if s in ref else ABSENT
+                if want is ABSENT:
+                    continue
+                if got is ABSENT:
+                    fails.append("%s: %s:%s lost" % (hop, s, k))
+                elif not py_equal(want, got):
+                    fails.append("%s: %s:%s %s -> %s" % (
+                        hop, s, k, short(want), short(got)))
+                else:
+                    typ = dfn.get_config_value_type(s, lk)
+                    if typ is not None and has_converter(s, lk) and \
+                            not isinstance(got, typ):
+                        fails.append("%s: %s:%s has type %s" % (
+                            hop, s, k, type(got).__name__))
+            # nothing but the written entries (and what the tools add)
+            for s in cfg:
+                if s in ("filtering", "calculation"):
+                    continue
+                for k2 in cfg[s]:
+                    if (s, k2) not in known and (s, k2) not in excl:
+                        fails.append("%s: %s:%s appeared" % (hop, s, k2))
+
+        def write(path, m, tshift=0):
+            m2 = {s: dict(m[s]) for s in m}
+            m2.setdefault("setup", {})["software version"] = "verif 1"
+            with RTDCWriter(path, mode="reset") as hw:
+                hw.store_metadata(m2)
+                hw.store_feature("deform", np.linspace(.01, .02, 7) + tshift)
+                hw.store_feature("area_um", np.linspace(20, 90, 7))
+
+        out = io.StringIO()
         try:
-            with warnings.catch_warnings():
+            with warnings.catch_warnings(), contextlib.redirect_stdout(out):
                 warnings.simplefilter("ignore")
                 ref = Configuration(cfg=meta)
-                m2 = {s: dict(meta[s]) for s in meta}
-                m2.setdefault("setup", {})["software version"] = "verif 1"
-                with RTDCWriter(p0, mode="reset") as hw:
-                    hw.store_metadata(m2)
-                    hw.store_feature("deform", np.linspace(.01, .02, 7))
-                    hw.store_feature("area_um", np.linspace(20, 90, 7))
-                secs = sorted(meta)
-                with dclab.new_dataset(p0) as ds:
-                    df = config_diff(ref, ds.config, secs)
-                    if df:
-                        fails.append("write/read: " + "; ".join(df[:4]))
-                    p1 = os.path.join(d, "export.rtdc")
+                known = {(s, k.lower()) for (s, k) in entries} | RECTIFIED
+                pa = os.path.join(d, "a.rtdc")
+                pb = os.path.join(d, "b.rtdc")
+                write(pa, meta)
+                mb = {s: dict(meta[s]) for s in meta}
+                mb["experiment"]["time"] = "12:20:11"
+                mb["experiment"]["sample"] = "the other input"
+                mb["user"] = dict(mb["user"], zero=1)
+                write(pb, mb, 0.5)
+                observe("parse_config", RTDC_HDF5.parse_config(pa))
+                p1 = os.path.join(d, "export.rtdc")
+                with dclab.new_dataset(pa) as ds:
+                    observe("new_dataset", ds.config)
+                    hierarchy_check(ds, observe, fails)
                     ds.export.hdf5(p1, features=["deform", "area_um"],
                                    filtered=False)
                 with dclab.new_dataset(p1) as ds1:
-                    df = config_diff(ref, ds1.config, secs)
-                    if df:
-                        fails.append("export.hdf5: " + "; ".join(df[:4]))
-                if i % 2 == 0:
-                    from dclab.cli import compress
-                    p2 = os.path.join(d, "compressed.rtdc")
-                    compress(path_in=p0, path_out=p2, force=True)
-                    with dclab.new_dataset(p2) as ds2:
-                        df = config_diff(ref, ds2.config, secs)
-                        if df:
-                            fails.append("dclab-compress: " +
-                                         "; ".join(df[:4]))
+                    observe("export", ds1.config)
+                p2 = os.path.join(d, "compressed.rtdc")
+                compress(path_in=p1, path_out=p2, force=True)
+                with dclab.new_dataset(p2) as ds2:
+                    observe("compress", ds2.config)
+                p3 = os.path.join(d, "repacked.rtdc")
+                repack(path_in=p2, path_out=p3)
+                with dclab.new_dataset(p3) as ds3:
+                    observe("repack", ds3.config)
+                p4 = os.path.join(d, "joined.rtdc")
+                ins = [p3, pb] if run.rng.random() < 0.5 else [pb, p3]
+                join(paths_in=ins, path_out=p4)
+                with dclab.new_dataset(p4) as ds4:
+                    observe("join", ds4.config)
+                    if len(ds4) != 14:
+                        fails.append("join: %d events" % len(ds4))
+                sd = os.path.join(d, "split")
+                os.makedirs(sd, exist_ok=True)
+                outs = split(path_in=p3, path_out=sd, split_events=4,
+                             ret_out_paths=True)
+                if len(outs) != 2:
+                    fails.append("split: %d files" % len(outs))
+                for po in outs:
+                    with dclab.new_dataset(po) as ds5:
+                        observe("split", ds5.config)
         except Exception as e:
-            fails.append("raised %r" % (e,))
+            fails.append("after %s: raised %r" % (
+                hops_done[-1] if hops_done else "start", e))
+        case = dict(route="dataset", meta=spec, hops=hops_done)
         run.record_case(case, True, sample=False)
         run.count("route:dataset")
+        run.count("dataset-hops", len(hops_done))
         for f in fails[:1]:
-            run.count("oracle-fail:dataset")
-            run.oracle_failure(case, "roundtrip: " + f,
-                               classify(case, "roundtrip", f))
+            run.count("oracle-fail:carry")
+            run.oracle_failure(case, "carry: " + "; ".join(fails[:4]),
+                               classify(case, "carry", f))
+        # correspondence cases: one per entry, all hops against the model
+        for (s, k) in entries:
+            if not flats[(s, k)] or not key_ok_for_model(s, k):
+                continue
+            cases.append(dict(route="carry", sec=s, key=k, val=spec[s][k],
+                              cls="carry", hops=len(flats[(s, k)])))
+            impl.append(("multi", flats[(s, k)]))
+            run.record_case(cases[-1], True, sample=False)
+            run.count("route:carry")
+
+
+def hierarchy_check(ds, observe, fails):
+    """RTDC_Hierarchy._create_config/_update_config: the child's metadata is
+    the parent's, except the documented overrides"""
+    import numpy as np
+    import dclab
+    ds.config["filtering"]["deform min"] = 0.0
+    ds.config["filtering"]["deform max"] = 0.0175
+    ds.config["filtering"]["limit events"] = 5
+    pf = dclab.PolygonFilter(axes=("area_um", "deform"),
+                             points=[[0, 0], [100, 0], [100, 1], [0, 1]])
+    ds.config["filtering"]["polygon filters"] = [pf.unique_id]
+    try:
+        _hierarchy_check(ds, observe, fails, pf)
+    finally:
+        dclab.PolygonFilter.remove(pf.unique_id)
+
+
+def _hierarchy_check(ds, observe, fails, pf):
+    import numpy as np
+    import dclab
+    if list(ds.config["filtering"]["polygon filters"]) != [pf.unique_id]:
+        fails.append("hierarchy: parent polygon filters %s, id %s" % (
+            ds.config["filtering"]["polygon filters"], pf.unique_id))
+    ds.config["calculation"]["emodulus medium"] = "CellCarrier"
+    ds.config["calculation"]["crosstalk fl21"] = "0.125"
+    ds.apply_filter()
+    child = dclab.new_dataset(ds)
+    observe("hierarchy", child.config)
+    cf, pf = child.config["filtering"], ds.config["filtering"]
+    for k in cf:
+        if k.endswith(" min") or k.endswith(" max"):
+            fails.append("hierarchy: child inherits filter range %r" % k)
+    if cf["polygon filters"] != [] or \
+            cf["hierarchy parent"] != ds.identifier:
+        fails.append("hierarchy: polygon filters/hierarchy parent %s %s" % (
+            cf["polygon filters"], cf["hierarchy parent"]))
+    for k in pf:
+        if k.endswith(" min") or k.endswith(" max") or \
+                k in ("polygon filters", "hierarchy parent"):
+            continue
+        if k not in cf or not same_type_equal(cf[k], pf[k]):
+            fails.append("hierarchy: filtering:%s %s -> %s" % (
+                k, short(pf[k]), short(cf.get(k, ABSENT))))
+    if int(child.config["experiment"]["event count"]) != \
+            int(np.sum(ds.filter.all)) or len(child) != np.sum(ds.filter.all):
+        fails.append("hierarchy: event count %s" %
+                     child.config["experiment"]["event count"])
+    ds.config["calculation"]["crosstalk fl21"] = 0.25
+    ds.config["calculation"].pop("emodulus medium")
+    child.rejuvenate()
+    a, b = dict(ds.config["calculation"]), dict(child.config["calculation"])
+    if sorted(a) != sorted(b) or any(not same_type_equal(a[k], b[k])
+                                     for k in a):
+        fails.append("hierarchy: calculation %s -> %s" % (a, b))
+    for s in ds.config:
+        if s in ("filtering", "calculation"):
+            continue
+        for k in ds.config[s]:
+            if (s, k) == ("experiment", "event count"):
+                continue
+            if k not in child.config[s] or not same_type_equal(
+                    ds.config[s][k], child.config[s][k]):
+                fails.append("hierarchy: %s:%s %s -> %s" % (
+                    s, k, short(ds.config[s][k]),
+                    short(child.config[s].get(k, ABSENT))))
 
 
 # --------------------------------------------------------------------------
@@ -1361,6 +1778,45 @@ def search(run, broken):
     return None
 
 
+def replay_dataset(case):
+    """re-run one metadata carry-over chain with the recorded metadata"""
+    import random
+    import tempfile
+
+    class R:
+        pass
+    r = R()
+    r.thorough = False
+    r.rng = random.Random(0)
+    r.fails = []
+    r.scratch = tempfile.mkdtemp(dir=os.environ.get("VERIF_SCRATCH",
+                                                    "/var/tmp"))
+    r.record_case = lambda *a, **k: None
+    r.count = lambda *a, **k: None
+    r.oracle_failure = lambda c, d, f=None: r.fails.append(d)
+    global random_meta_spec
+    orig = random_meta_spec
+    random_meta_spec = lambda rng: case["meta"]     # noqa: E731
+    try:
+        import shutil
+        carry_one = carry_chains
+        r.thorough = False
+        # a single chain
+        globals()["_REPLAY_ONE"] = True
+        carry_one(r, [], [])
+    finally:
+        random_meta_spec = orig
+        globals().pop("_REPLAY_ONE", None)
+        shutil.rmtree(r.scratch, ignore_errors=True)
+    print("metadata:", json.dumps(case["meta"])[:1500])
+    if r.fails:
+        for d in r.fails[:3]:
+            print("FAILS", d)
+        return 1
+    print("passes on the current tree")
+    return 0
+
+
 def replay(payload):
     case = payload.get("case")
     if not case or "route" not in case:
@@ -1369,9 +1825,7 @@ def replay(payload):
         return 1
     import tempfile
     if case["route"] == "dataset":
-        print("dataset round trip case; meta:", json.dumps(case["meta"])[:800])
-        print("re-run ./check C11 to regenerate it")
-        return 1
+        return replay_dataset(case)
     with tempfile.TemporaryDirectory(dir=os.environ.get(
             "VERIF_SCRATCH", "/var/tmp")) as d:
         flat, fails = run_one(case, d, 0)
